@@ -218,6 +218,17 @@ func verifMutexHeld(l sync.Locker) bool {
 	return false
 }
 
+func verifWaitGroupCount(wg *sync.WaitGroup) int {
+	done := make(chan struct{})
+	go func() { wg.Wait(); close(done) }()
+	select {
+	case <-done:
+		return 0
+	case <-time.After(100 * time.Millisecond):
+		return 1
+	}
+}
+
 // verifSameDuration: exact in the symbolic engine; natively the deadline has
 // already started to run down, so allow two seconds of slack.
 func verifSameDuration(got, want time.Duration) bool {
